@@ -37,6 +37,7 @@ type Result struct {
 	Counts       map[string]int
 	Inconclusive map[string]int
 	Witnesses    []Violation
+	Concolic     []Violation
 	WallS        float64
 	SetupS       float64
 	TimedOut     bool
@@ -271,6 +272,7 @@ func Explore(prog *ssa.Program, h *Harness, opts Options) *Result {
 	res.Counts = sr.counts
 	res.Inconclusive = sr.inconclusive
 	res.Witnesses = sr.witnesses
+	res.Concolic = sr.concolic
 	res.WallS = time.Since(start).Seconds()
 	res.SetupS = setupMax
 	return res
